@@ -25,7 +25,13 @@ import (
 	"verif/engine/vxform"
 )
 
-const repoDir = "/repo"
+// repoDir is the tree under test: /repo, or a scratch worktree of it for selftests (VERIF_REPO).
+var repoDir = func() string {
+	if d := os.Getenv("VERIF_REPO"); d != "" {
+		return d
+	}
+	return "/repo"
+}()
 
 var verifDir = func() string {
 	if d := os.Getenv("VERIF_DIR"); d != "" {
